@@ -10,6 +10,8 @@ import (
 // of zero removes the operation (a property draws only the operations its own
 // quantifier names).
 type histOpts struct {
+	// text: if not nil, the text of the history (cyclic) instead of a drawn one
+	text      []byte
 	maxOps    int
 	maxText   int
 	write     int
@@ -108,7 +110,9 @@ func genParserHistory(t *rapid.T, x *parserExec, o histOpts) {
 	}
 	tiny := o.tinyPct > 0 && rapid.IntRange(0, 99).Draw(t, "tiny") < o.tinyPct
 	var text []byte
-	if tiny && o.zeroPct > 0 && rapid.IntRange(0, 99).Draw(t, "zeroText") < o.zeroPct {
+	if o.text != nil {
+		text = o.text
+	} else if tiny && o.zeroPct > 0 && rapid.IntRange(0, 99).Draw(t, "zeroText") < o.zeroPct {
 		n := rapid.IntRange(3, 16).Draw(t, "zeroTextLen")
 		text = make([]byte, n)
 		for i := range text {
